@@ -81,6 +81,11 @@ def explore(ctx):
                 sx, sy = rng.choice([100, 100, 50, 200, 25, 400, -100]), [50, 200, 100, -100, 50, 100][tcount % 6]
                 opts = {"OffsetX": rng.choice([0, 0, 10, -35]), "OffsetY": rng.choice([0, 0, 7, -100]),
                         "ScaleX": sx, "ScaleY": sy, "Origin": [1, 3, 4, 0, 2][tcount % 5]}
+                if tcount % 6 == 2:
+                    # a pure offset (no scale, no slant): bases and composites both move, every component matrix -- mirrored,
+                    # scaled, sheared -- must be compensated
+                    opts.update(ScaleX=100, ScaleY=100, OffsetX=[10, -35, 40][tcount % 3], OffsetY=[0, 7, -100][(tcount // 3) % 3])
+                    sx = sy = 100
                 # heights whose halves end in .5 with an even and with an odd integer part, plain ones, zero
                 cap, xh = [645, 701, 700, 650, 0, 647][tcount % 6], [449, 453, 500, 480, 451][tcount % 5]
                 font.info.capHeight = cap
